@@ -129,6 +129,13 @@ class FnTranslator:
         self.spec = spec
         self.domain = domain
         self.ops = OPS[domain]
+        # two spellings of the same idea (both kept, each used by its own anchors):
+        if spec.get("ops_override", {}).get(domain):
+            # (C03/C14) e.g. {"Q": {"exp": "qexp_fast"}}: another spelling of an operator for one carrier
+            self.ops = dict(self.ops, **spec["ops_override"][domain])
+        if domain == "Q" and spec.get("q_exp"):
+            # (C15) executable twin may use another rational exp (e.g. Base.QExpFast.qexpf); additive
+            self.ops = dict(self.ops, exp=spec["q_exp"])
         self.src = Source(repo, spec["file"])
         self.fn = self.src.find(spec["qual"])
         self.where = "%s:%s" % (spec["file"], spec["qual"])
@@ -152,6 +159,7 @@ class FnTranslator:
         self.drop_calls = spec.get("drop_calls", [])        # expression-statement calls that are dropped
         self.effect_ctors = spec.get("effect_ctors", [])    # constructor calls flattened inside effect arguments
         self.setitem_effects = spec.get("setitem_effects", [])  # `X[k] = v` recorded as effect "X[]=" [k; v]
+        self.ret_coq = None                                 # Coq return type of a `stmt_range` tuple (C15)
 
     # -- helpers -----------------------------------------------------------------------------
     def err(self, node, why):
@@ -173,6 +181,23 @@ class FnTranslator:
             nm = self.names[key] if key in getattr(self, "names", {}) else coq_ident(key.replace("self.", "self_"))
             self.params[key] = (nm, ty or self.type_of_key(key))
         return self.params[key]
+
+    # -- integer-typed ("Z") sub-expressions inside a Q/R kernel (additive; C15) -----------------
+    def inj(self, a, t, node=None):
+        """coerce an expression of type Z to the carrier ('num')"""
+        if t == "num":
+            return a
+        if t == "Z":
+            if self.domain == "Q":
+                return "(inject_Z %s)" % a
+            if self.domain == "R":
+                return "(IZR %s)" % a
+            return a
+        self.err(node, "numeric expression expected, got %s" % t)
+
+    def paramable(self, k):
+        """names whose value before any assignment is a parameter of the generated function"""
+        return k.startswith("self.") or k in getattr(self, "argnames", ()) or k in self.types
 
     def newname(self, base):
         base = coq_ident(base.replace("self.", "self_"))
@@ -239,16 +264,19 @@ class FnTranslator:
                 return self.param(key)
             self.err(node, "attribute %s" % key)
         if isinstance(node, ast.Subscript):
-            # (additive, C04) a subscript is accepted only when its exact source text is declared in
-            # `types` (e.g. "self.pilot_signals.shape[1]"): it becomes a parameter of that type
+            # (additive, C04 and C15 -- same implementation on both sides) a subscript read
+            # (`self.pilot_signals.shape[1]`, `d["key"]`, `m[:, 0]`) is accepted only when bound in env
+            # or when its exact source text is declared in `types`: it becomes a parameter of that type
             key = self.txt(node)
             if key in env:
                 return env[key]
             if key in self.types:
                 return self.param(key)
-            self.err(node, "subscript %s" % key)
+            self.err(node, "subscript %s (declare it in types to make it a parameter)" % key)
         if isinstance(node, ast.UnaryOp):
             a, t = self.expr(node.operand, env)
+            if isinstance(node.op, ast.USub) and t == "Z" and self.domain != "Z":
+                return ("(- %s)%%Z" % a, "Z")
             if isinstance(node.op, ast.USub) and t == "num":
                 if isinstance(node.operand, ast.Constant):
                     seg = ast.get_source_segment(self.src.text, node.operand)
@@ -260,6 +288,13 @@ class FnTranslator:
         if isinstance(node, ast.BinOp):
             a, ta = self.expr(node.left, env)
             b, tb = self.expr(node.right, env)
+            if ta == "Z" and tb == "Z" and self.domain != "Z" and not isinstance(node.op, ast.Div):
+                zop = {ast.Add: "+", ast.Sub: "-", ast.Mult: "*"}.get(type(node.op))
+                if zop is None:
+                    self.err(node, "binary op %s on integers" % type(node.op).__name__)
+                return ("(%s %s %s)%%Z" % (a, zop, b), "Z")
+            if ta in ("num", "Z") and tb in ("num", "Z") and "Z" in (ta, tb) and self.domain != "Z":
+                a, b, ta, tb = self.inj(a, ta, node), self.inj(b, tb, node), "num", "num"
             if ta != "num" or tb != "num":
                 self.err(node, "arithmetic on non-number")
             if isinstance(node.op, ast.Add):
@@ -355,6 +390,17 @@ class FnTranslator:
                 continue
             a, ta = self.expr(left, env)
             b, tb = self.expr(right, env)
+            if ta == "Z" and tb == "Z" and self.domain != "Z":
+                zc = {ast.LtE: "(Z.leb %s %s)" % (a, b), ast.Lt: "(Z.ltb %s %s)" % (a, b),
+                      ast.GtE: "(Z.leb %s %s)" % (b, a), ast.Gt: "(Z.ltb %s %s)" % (b, a),
+                      ast.Eq: "(Z.eqb %s %s)" % (a, b), ast.NotEq: "(negb (Z.eqb %s %s))" % (a, b)}.get(type(op))
+                if zc is None:
+                    self.err(node, "comparison operator")
+                parts.append(zc)
+                left = right
+                continue
+            if ta in ("num", "Z") and tb in ("num", "Z") and "Z" in (ta, tb) and self.domain != "Z":
+                a, b, ta, tb = self.inj(a, ta, node), self.inj(b, tb, node), "num", "num"
             if ta != "num" or tb != "num":
                 self.err(node, "comparison of non-numbers: %s" % self.txt(node))
             if isinstance(op, ast.LtE):
@@ -402,7 +448,7 @@ class FnTranslator:
                     env2[self.txt(xnode)] = (inner, "num" if tx == "optnum" else "Z" if tx == "optZ" else "num")
                     # in Z-domain kernels 'num' is Z already
                     if tx == "optZ":
-                        env2[self.txt(xnode)] = (inner, "num")
+                        env2[self.txt(xnode)] = (inner, "num" if self.domain == "Z" else "Z")
                     rest = go(values[1:], env2)
                     return "(match %s with None => %s | Some %s => %s end)" % (
                         x, "true" if is_or else "false", inner, rest)
@@ -425,10 +471,24 @@ class FnTranslator:
             out = []
             for a in arglist:
                 s, t = self.expr(a, env)
+                if t == "Z" and self.domain != "Z":
+                    s, t = self.inj(s, t, node), "num"
                 if t != "num":
                     self.err(node, "non-numeric argument to %s" % f)
                 out.append(s)
             return out
+
+        # int(x) / math.ceil(x): carrier -> Z (Q kernels only; Python int() truncates toward zero)
+        if f in ("int", "math.ceil") and len(args) == 1 and not node.keywords and self.domain != "Z":
+            x, tx = self.expr(args[0], env)
+            if tx == "Z":
+                return (x, "Z")
+            if tx != "num" or self.domain != "Q":
+                self.err(node, "%s on %s in %s kernel" % (f, tx, self.domain))
+            return ("(%s %s)" % ("Qtrunc" if f == "int" else "Qceiling", x), "Z")
+        if f == "np.clip" and len(args) == 3 and not node.keywords:
+            x, lo, hi = nums(args)
+            return ("(%s (%s %s %s) %s)" % (o["min"], o["max"], x, lo, hi), "num")
 
         if f in ("min", "max", "np.minimum", "np.maximum"):
             fn = o["min"] if f in ("min", "np.minimum") else o["max"]
@@ -563,7 +623,9 @@ class FnTranslator:
         return "(OkS %s)" % rec if self.has_raise else rec
 
     def block(self, stmts, env, rest):
-        """translate stmts followed by continuation rest(env) -> coq text"""
+        """translate stmts followed by continuation rest(env) -> coq text
+        (the signature is overridden by subclasses -- tools/stochnet_gen.py, tools/dump_tariffs.py --
+        so internal state such as the `if x is None` retry mode lives in self._if_mode, not in arguments)"""
         if not stmts:
             return rest(env)
         s, tail = stmts[0], stmts[1:]
@@ -598,6 +660,9 @@ class FnTranslator:
                     name, cur, ename, "; ".join(args), nxt(env2))
             self.err(s, "expression statement %s" % self.txt(s)[:40])
         if isinstance(s, ast.Pass):
+            return nxt(env)
+        if isinstance(s, ast.FunctionDef) and self.spec.get("skip_nested_defs"):
+            # (C15) nested helper; translated by its own anchor, calls to it must be call_params
             return nxt(env)
         if isinstance(s, ast.Assign) and len(s.targets) == 1 and self._is_setitem_effect(s.targets[0]):
             tgt = s.targets[0]
@@ -662,15 +727,36 @@ class FnTranslator:
                 return '(ErrS "%s" %s)' % (name, self.record(env, self.default_ret()))
             return '(Err "%s")' % name
         if isinstance(s, ast.If):
+            # `if x is None: A else: B` / `if x is not None: A else: B` on an optional x -- two
+            # independent implementations are kept, each with the output format its users rely on:
+            #  * spec `narrow_if=True` (opt-in, C01/sim.py): always a `match`, the not-None branch
+            #    sees x unwrapped;
+            #  * otherwise (automatic, C03/C14 Battery.reset): first the plain translation (x stays
+            #    an option in both branches); only if that is refused, retry with x unwrapped in
+            #    the not-None branch (`match x with None => A | Some x' => B end`).
+            nt = self._none_test(s.test)
+            narrow_if = bool(self.spec.get("narrow_if"))
+            # self._if_mode[id(s)]: absent = not tried yet, None = plain attempt, True = unwrapped attempt
+            if_mode = self.__dict__.setdefault("_if_mode", {})
+            unwrap = if_mode.get(id(s), False)
+            if nt is not None and not narrow_if and unwrap is False:
+                snap = (dict(self.params), dict(self.extra), dict(self.fresh))
+                try:
+                    if_mode[id(s)] = None
+                    try:
+                        return self.block(stmts, env, rest)
+                    except Untranslatable:
+                        self.params, self.extra, self.fresh = snap
+                        if_mode[id(s)] = True
+                        return self.block(stmts, env, rest)
+                finally:
+                    del if_mode[id(s)]
             c, tc = self.expr(s.test, env)
             if tc != "bool":
                 self.err(s, "non-boolean if test: %s" % self.txt(s.test))
             narrow = None
             cond = lambda a, b: "(if %s then\n%s\nelse\n%s)" % (c, a, b)
-            nt = self._none_test(s.test)
-            if nt is not None and self.spec.get("narrow_if"):
-                # additive extension (opt-in): `if x is None: A else: B` on an optional x becomes a
-                # `match`, and B (or A for `is not None`) sees x unwrapped
+            if nt is not None and narrow_if:
                 xnode, is_none = nt
                 xs, tx = self.expr(xnode, env)
                 if tx.startswith("opt"):
@@ -680,8 +766,36 @@ class FnTranslator:
                         cond = lambda a, b: "(match %s with None =>\n%s\n| Some %s =>\n%s end)" % (xs, a, inner, b)
                     else:
                         cond = lambda a, b: "(match %s with None =>\n%s\n| Some %s =>\n%s end)" % (xs, b, inner, a)
+            elif nt is not None and unwrap is True:
+                xnode, is_none = nt
+                xs, tx = self.expr(xnode, env)
+                if not tx.startswith("opt"):
+                    self.err(s, "`is None` on a non-optional (%s)" % self.txt(xnode))
+                inner = self.newname(self.txt(xnode))
+                narrow = ("else" if is_none else "body", self.txt(xnode), (inner, "num"))
+                if is_none:
+                    cond = lambda a, b: "(match %s with None =>\n%s\n| Some %s =>\n%s\nend)" % (xs, a, inner, b)
+                else:
+                    cond = lambda a, b: "(match %s with Some %s =>\n%s\n| None =>\n%s\nend)" % (xs, inner, a, b)
+
+            #  * (C15, automatic) `if x is not None and REST:` -- a conjunction, which neither of the two
+            #    mechanisms above matches: the test stays a plain `if` (boolop() already lets REST see x
+            #    unwrapped) and the body reads x as `match x with Some v_ => v_ | None => 0 end` (the
+            #    default is unreachable under the test).  A *pure* `if x is not None:` is left to the
+            #    mechanisms above (plain first, then a real `match`).
+            if nt is None and isinstance(s.test, ast.BoolOp) and isinstance(s.test.op, ast.And):
+                nt1 = self._none_test(s.test.values[0])
+                if nt1 is not None and not nt1[1]:
+                    xk = self.txt(nt1[0])
+                    xv, xt = self.expr(nt1[0], env)
+                    if xt in ("optnum", "optZ"):
+                        it = "num" if (xt == "optnum" or self.domain == "Z") else "Z"
+                        zero = "0%Z" if it == "Z" else self.ops["lit"](fractions.Fraction(0))
+                        narrow = ("body", xk, ("(match %s with Some v_ => v_ | None => %s end)" % (xv, zero), it))
 
             def branch_envs(e):
+                # (env of the body, env of the else branch): copies of the *current* env (so a
+                # freshly initialised "$effects" is seen) with x unwrapped in the not-None branch
                 eb = ee = e
                 if narrow is not None:
                     en = dict(e)
@@ -700,7 +814,7 @@ class FnTranslator:
             # branch-local temporaries (assigned on one branch only, undefined before) are not
             # merged; a later use of one is an unbound name and fails closed
             Wb, We = self.assigned(s.body), self.assigned(s.orelse)
-            W = [k for k in W if k in env or k.startswith("self.") or (k in Wb and k in We)]
+            W = [k for k in W if k in env or self.paramable(k) or (k in Wb and k in We)]
             if self.has_effects and any(self._is_effect_stmt(n)
                                         for st in s.body + s.orelse for n in ast.walk(st)):
                 W = W + ["$effects"]
@@ -715,7 +829,7 @@ class FnTranslator:
                 for k in W:
                     if k in e:
                         vals.append(e[k][0])
-                    elif k.startswith("self."):
+                    elif self.paramable(k):
                         vals.append(self.param(k)[0])
                     else:
                         self.err(s, "variable %s assigned on one branch only and not defined before" % k)
@@ -763,7 +877,8 @@ class FnTranslator:
         # `drop_args=[...]`: arguments that are only used through declared attributes
         # (`other.precedence`) or not at all in an addressed expression get no binder of their own
         arg_params = [k for k in self.argnames if k not in inline_defaults and k not in spec.get("drop_args", [])]
-        # only_used_args (C04) / prune_args (C01): only the arguments actually used become parameters
+        # only_used_args (C04) / prune_args (C01) / prune_params (feasible.py and C15, implemented twice with
+        # the same meaning): only the arguments actually read become parameters
         if not spec.get("only_used_args") and not spec.get("prune_args") and not spec.get("prune_params"):
             for k in arg_params:
                 self.param(k)
@@ -774,6 +889,36 @@ class FnTranslator:
             self.needs_record = False
             body, rt = self.expr(node, env)
             self.ret_type = rt
+        elif "stmt_range" in spec:
+            # (additive, C15) a contiguous run of statements lst[i:j] (lst addressed by stmt_path,
+            # default the function body) as a function returning the tuple of the named `outputs`.
+            # Three `stmt_path` variants coexist, told apart by their companion key: `stmt_range`+`outputs`
+            # (here), `result` (C04, next branch), neither (C01: path ends in [a:b], last branch).
+            lst = resolve_path(fn, spec.get("stmt_path", "body"), self.where)
+            i, j = spec["stmt_range"]
+            if not isinstance(lst, list) or not (0 <= i < j <= len(lst)):
+                raise Untranslatable("%s: stmt_range %s does not resolve" % (self.where, (i, j)))
+            stmts = lst[i:j]
+            if any(isinstance(n, (ast.Raise, ast.Return, ast.Continue, ast.Break)) for st in stmts for n in ast.walk(st)):
+                raise Untranslatable("%s: control transfer inside stmt_range" % self.where)
+            self.needs_record = False
+            outs = spec["outputs"]
+
+            def fin(e):
+                vals, tys = [], []
+                for k in outs:
+                    if k in e:
+                        v = e[k]
+                    elif self.paramable(k):
+                        v = self.param(k)
+                    else:
+                        raise Untranslatable("%s: output %s is not assigned in the range" % (self.where, k))
+                    vals.append(v[0])
+                    tys.append(self.coqty(v[1]))
+                self.ret_coq = tys[0] if len(tys) == 1 else "(" + " * ".join(tys) + ")"
+                return vals[0] if len(vals) == 1 else "(" + ", ".join(vals) + ")"
+            body = self.block(stmts, env, fin)
+            self.ret_type = "tuple"
         elif "stmt_path" in spec and "result" in spec:
             # (additive, C04) translate one statement (or a statement list) addressed by path and
             # return the final value of the local variable named by spec["result"]
@@ -827,7 +972,7 @@ class FnTranslator:
         binders = ["(%s : %s)" % (self.params[k][0], self.coqty(self.params[k][1])) for k in order]
         for key in sorted(self.extra, key=lambda k: self.extra[k][0]):
             binders.append("(%s : %s)" % (self.extra[key][0], self.coqty(self.extra[key][1])))
-        T = self.coqty(self.ret_type)
+        T = self.ret_coq if self.ret_type == "tuple" else self.coqty(self.ret_type)
         out = []
         if self.needs_record:
             rec = "%s_out" % self.name
@@ -869,7 +1014,18 @@ def translate_group(repo, specs, domain):
             spec["file"], spec["qual"] + (" @ " + spec["expr_path"] if "expr_path" in spec else ""),
             info["line"], info["end_line"], text))
         infos.append(info)
-    return HEADERS[domain] + "\n" + "\n".join(texts), infos
+    # per-anchor extra imports, two spellings (both kept, each used by its own anchors):
+    extra = []
+    for spec in specs:      # (C03/C14) imports={"Q": "From ACN Require Import Base.QExp."}
+        imp = spec.get("imports", {}).get(domain)
+        if imp and imp.rstrip("\n") not in extra:
+            extra.append(imp.rstrip("\n"))
+    if domain == "Q":       # (C15) q_coq_require="Qround" / q_require="Base.QExpFast" for the Q file
+        for r in sorted({sp["q_coq_require"] for sp in specs if sp.get("q_coq_require")}):
+            extra.append("From Coq Require Import %s." % r)
+        for r in sorted({sp["q_require"] for sp in specs if sp.get("q_require")}):
+            extra.append("From ACN Require Import %s." % r)
+    return HEADERS[domain] + "".join(e + "\n" for e in extra) + "\n" + "\n".join(texts), infos
 
 
 # ---------------------------------------------------------------------------------------------
